@@ -370,3 +370,59 @@ func keySizeLimits(c *Ctx) bool {
 	}
 	return true
 }
+
+// txnSizeLimit: the other library limit on which the backends differ (recorded finding KF-txn-size-limit): one
+// operation writing more than badger accepts in a transaction (about 10 MiB with the default options) is refused by
+// badger with ErrTxnTooBig - as a whole, nothing stored - and carried out by bbolt.  Batches well below the limit
+// behave the same on both.
+func txnSizeLimit(c *Ctx) bool {
+	listed := false
+	var hit knownFinding
+	if b, err := os.ReadFile(c.KnownPath); err == nil {
+		var kf struct {
+			Known []knownFinding `json:"known"`
+		}
+		if json.Unmarshal(b, &kf) == nil {
+			for _, k := range kf.Known {
+				if k.Property == c.Prop && k.Id == "KF-txn-size-limit" {
+					listed, hit = true, k
+				}
+			}
+		}
+	}
+	outcome := func(be string, docs, bytesEach int) string {
+		im := NewImpl(be, c.Scratch)
+		defer im.Destroy()
+		im.db.CreateCollection("ts")
+		pad := strings.Repeat("p", bytesEach)
+		batch := []*d.Document{}
+		for i := 0; i < docs; i++ {
+			batch = append(batch, d.NewDocumentOf(map[string]interface{}{"_id": fixedId(i + 1), "pad": pad}))
+		}
+		err := im.db.Insert("ts", batch...)
+		cnt, _ := im.db.Count(query.NewQuery("ts"))
+		if err != nil {
+			if cnt != 0 {
+				return fmt.Sprint("error with ", cnt, " documents stored")
+			}
+			return "error"
+		}
+		return fmt.Sprint("ok ", cnt)
+	}
+	for _, sz := range [][2]int{{8, 64 * 1024}, {4, 512 * 1024}, {40, 512 * 1024}} {
+		a, b := outcome("bbolt", sz[0], sz[1]), outcome("badger-mem", sz[0], sz[1])
+		c.Evals++
+		if a == b {
+			continue
+		}
+		if sz[0]*sz[1] > 8<<20 && a == fmt.Sprint("ok ", sz[0]) && b == "error" && listed {
+			fmt.Printf("KNOWN-FINDING: property=%s %s [%s]\n", c.Prop, hit.What, hit.Id)
+			c.KnownHits[hit.Id] = true
+			continue
+		}
+		c.Violation(&Replay{Stream: "txn-size", Case: []interface{}{J{"k": "txn-size", "documents": sz[0], "bytes_each": sz[1]}}, Expected: []string{"bbolt: " + a}, Actual: []string{"badger: " + b},
+			Note: "the backends disagree on one large batch insert"})
+		return false
+	}
+	return true
+}
